@@ -299,6 +299,12 @@ func (x *Exec) runTop(fn *ssa.Function, c *Contract) {
 		fr.vals[p] = v
 		fr.params[p.Name()] = v
 		fr.assumeAllocated(v, a0)
+		// go/ssa captures variables by reference: the free variable is the address of the
+		// captured variable, which exists (non-nil); in specs the name denotes the variable
+		if pt, ok := p.Type().Underlying().(*types.Pointer); ok && v.Term != "" {
+			x.em.Assert(sLt("0", v.Term))
+			fr.params[p.Name()] = lv(&Loc{Kind: LRef, Base: v.Term, Root: pt.Elem(), T: pt.Elem()})
+		}
 	}
 	// implicit: pointer receiver non-nil
 	if fn.Signature.Recv() != nil && len(fn.Params) > 0 && kindOf(fn.Params[0].Type()) == KPtr && !c.NilRecvOK {
